@@ -373,7 +373,15 @@ C16.manifest = {
             "incl. NaN and infinities gives InvalidArgument (C16_rejects_p). karate_club_graph: the adjacency literal "
             "is re-extracted from social.rs on every run and re-proved by vm_compute to be 34x34, 0/1, symmetric, "
             "zero-diagonal, 78 edges, equal to the NetworkX Zachary edge list, and the modelled constructor returns "
-            "exactly that graph (C16_karate_is_zachary, C16_karate_graph). Correspondence: the harness recomputes "
+            "exactly that graph (C16_karate_is_zachary, C16_karate_graph). LINK TO THE GRAPH-STRUCTURE CORE "
+            "(Proofs/GensWF.v): every graph state returned by complete_graph (every n, both directions), by "
+            "fast_gnp_random_graph (EVERY n, p, gap stream) and by karate_club_graph (ANY adjacency literal) is a state "
+            "of a mutation history from the empty graph, hence satisfies the coherence invariant WF of all twelve "
+            "Graph fields (name type Z with Z.eqb / Z.ltb, whose order hypotheses are theorems) and carries the "
+            "GraphSpecs the generator names (C16_generators_wf); the generators do return such graphs "
+            "(C16_generators_wf_total), so every theorem of C01 / C02 / C09 / C15 stated for WF graphs applies to "
+            "generator output - instantiated once as the handshake identity on complete_graph "
+            "(C16_complete_graph_handshake). Correspondence: the harness recomputes "
             "the real gap stream of each seed and the model must reproduce the implementation's node list and edge "
             "list exactly (debug and release builds).",
     "note": "partial: distributional claim cited (Batagelj-Brandes 2005) and sampled, not proved - the oracle checks on "
@@ -387,7 +395,7 @@ C16.manifest = {
             "prove the graph built from that vector has exactly those nodes and edges. Trusted: Coq kernel + "
             "vm_compute, harness/printers/diff, tools/gen_karate.py (tokenizer-level extractor), itertools "
             "combinations/permutations modelled as lexicographic enumerations. Axioms: none (Closed under the global "
-            "context) for all 8 pinned theorems.",
+            "context) for all 11 pinned theorems.",
     "technique": "Coq proof (induction over the gap stream / list comprehensions / creation invariant, vm_compute on "
                  "extracted data) + differential correspondence vs vm_compute model fed with the real gap stream + "
                  "statistical oracle on the implementation",
